@@ -53,6 +53,11 @@ def world():
     for nm in ('rep_encrypted', 'seg_is_init', 'seg_is_number', 'no_timing_reference', 'bad_options', 'options_encrypted'):
         w[nm] = z3.Bool(nm)
     w['seg_value'] = z3.Int('seg_value')
+    for nm in ('encoded_len', 'cursor_after_corruption', 'r_start', 'r_end', 'corrupt_seg'):
+        w[nm] = z3.Int(nm)
+    w['range_present'] = z3.Bool('range_present')
+    w['is_window'] = lambda d, lo, hi: z3.And(zint(d.lo) == zint(lo), zint(d.hi) == zint(hi)) if getattr(d, 'lo', None) is not None else z3.BoolVal(False)
+    w['is_whole'] = lambda d: z3.BoolVal(isinstance(d, EncodedData) and d.lo is None)
     w['order_is'] = lambda x, *names: z3.BoolVal(isinstance(x, PyList) and list(x.items) == list(names))
     w['Mof'] = z3.Function('Mof', INT, INT)      # segment index get_segment_index returns (skolem function of its result)
     w['Lof'] = z3.Function('Lof', INT, INT)      # loop index get_segment_index ends in (skolem function of its ghost L)
@@ -560,6 +565,82 @@ def gms_flags():
 GMS_FLAGS = gms_flags()
 
 
+class EncodedData:
+    """dest.getvalue(): the encoded segment, `length` bytes; slicing gives a window of it"""
+    py_types = ('bytes',)
+
+    def __init__(self, length, lo=None, hi=None):
+        self.length, self.lo, self.hi = length, lo, hi
+
+    def len(self, eng):
+        return self.length if self.lo is None else z3.If(self.hi >= self.lo, self.hi - self.lo, 0)
+
+    def method(self, eng, name, args, kwargs, e):
+        if name == 'tobytes' and not args:
+            return self
+        raise Unsupported(f'bytes.{name}')
+
+    def getslice(self, eng, lo, hi):
+        if self.lo is not None:
+            raise Unsupported('slice of a slice')
+        return EncodedData(self.length, zint(0 if lo is None else lo), zint(self.length if hi is None else hi))
+
+
+def gms_range():
+    """C13 (media-segment consumer of get_http_range): the length handed to the range parser is the length of the encoded
+    segment - also when video corruption has moved the stream cursor - and a satisfiable range is served as exactly
+    bytes start..end of the encoded segment with the parser's status and headers."""
+    base = gms('vod', 'number', 'video')
+
+    def env(w):
+        e = base.env(w)
+        e['options'].f['videoCorruption'] = PyList([z3.Int('corrupt_seg')])
+        return e
+    m = dict(base.models)
+
+    class Dest:
+        py_types = ('BytesIO',)
+
+        def __init__(self, w):
+            self.w, self.cursor_at_end = w, True
+
+        def method(self, eng, name, args, kwargs, e):
+            if name in ('getvalue', 'getbuffer'):
+                return EncodedData(self.w['encoded_len'])
+            if name == 'tell':
+                return self.w['encoded_len'] if self.cursor_at_end else self.w['cursor_after_corruption']
+            raise Unsupported(f'BytesIO.{name}')
+
+    def corrupt(eng, e, a, kw):
+        a[3].cursor_at_end = False          # apply_video_corruption seeks into the buffer and does not seek back
+
+    def get_http_range(eng, e, a, kw):
+        w = eng.world
+        eng.ghost_env['range_arg'] = zint(a[0])
+        if eng.branch(w['range_present']):
+            return (w['r_start'], w['r_end'], 206, {'Content-Range': Opaque('cr')})
+        return (None, None, 200, {})
+    m.update({'io.BytesIO': lambda eng, e, a, kw: Dest(eng.world), 'atom.encode': lambda eng, e, a, kw: None,
+              'self.apply_video_corruption': corrupt, 'self.get_http_range': get_http_range})
+    return Contract(
+        key=base.key, variant='range-video-corruption', props=['C13', 'C16'], env=env,
+        requires=[('rep_valid', 'rep_valid'), ('region_served', 'sn <= seg_num and seg_num <= sn + n - 1'),
+                  ('encoded', 'encoded_len >= 8 and 0 <= cursor_after_corruption and cursor_after_corruption <= encoded_len'),
+                  # what get_http_range guarantees for a satisfiable range of a body of range_arg bytes (its contract)
+                  ('parser_post', '0 <= r_start and r_start <= r_end')],
+        models=m, ctors=base.ctors,
+        ensures=[('range_parsed_against_the_full_length', 'range_arg == encoded_len'),
+                 ('slice_of_the_encoded_segment', '(is_window(result.data, r_start, r_end + 1) and result.status == 206) if range_present '
+                                                  'else (is_whole(result.data) and result.status == 200)')],
+        canaries=['range_present'],
+        witness_terms=lambda w: (lambda ev: dict(witness(('seg_num',))(w)(ev), **{k: ev(z3.Int(k)) for k in (
+            'encoded_len', 'cursor_after_corruption', 'r_start', 'r_end', 'corrupt_seg')}, range_present=ev(z3.Bool('range_present')))),
+    )
+
+
+GMS_RANGE = gms_range()
+
+
 # ----------------------------------------------------------------------------- LiveMedia.get: request checks (C16 / C01)
 class SegmentText:
     """the <segment_num> path component: the text 'init', a decimal number, or something else"""
@@ -959,7 +1040,7 @@ GROUP = Group(
     world=world,
     contracts=[MEDIA_DURATION_USING_TIMESCALE, GET_SEGMENT_INDEX, CALC_SEGMENT_FROM_TIMECODE, TIMESCALE_TO_TIMEDELTA,
                FL_LIVE, FL_VOD, SNT_LIVE_NUMBER, SNT_LIVE_TIME, SNT_VOD_NUMBER, SNT_VOD_TIME] + MSI +
-              [GENERATE_SEGMENT_LIST, timeline('live'), timeline('vod')] + GMS + [GMS_FLAGS] + LIVE_GET,
+              [GENERATE_SEGMENT_LIST, timeline('live'), timeline('vod')] + GMS + [GMS_FLAGS, GMS_RANGE] + LIVE_GET,
     lemmas=[
         Lemma('time_exact', ['C02'], lemma_time_exact),
         Lemma('prefix_step', ['C02'], lemma_prefix_monotone),
